@@ -1,6 +1,7 @@
 package main
 
 import (
+	"crypto/sha256"
 	"fmt"
 	"go/ast"
 	"go/importer"
@@ -10,6 +11,7 @@ import (
 	"maps"
 	"os"
 	"path/filepath"
+	"slices"
 	"strings"
 	"sync"
 
@@ -132,12 +134,33 @@ func parseFiles(lpkg *listedPackage, dir string, paths []string, mainPatch bool)
 	return files, nil
 }
 
+// pkgCacheID returns the GARBLE_CACHE key of lpkg's pkgCache entry.
+//
+// The entry carries obfuscated names which belong to lpkg's dependencies,
+// and those are salted with the dependencies' own action IDs.
+// A dependency can be rebuilt under a new action ID without changing lpkg's,
+// for example after an edit which alters neither its export data nor any inlined code,
+// so the action IDs of all dependencies must be part of the key as well.
+func pkgCacheID(lpkg *listedPackage) [sha256.Size]byte {
+	lpkg.hasDep("") // ensure that allDeps is filled
+	hasher := sha256.New()
+	hasher.Write(lpkg.GarbleActionID[:])
+	for _, path := range slices.Sorted(maps.Keys(lpkg.allDeps)) {
+		if dep, ok := sharedCache.ListedPackages.get(path); ok {
+			hasher.Write(dep.GarbleActionID[:])
+		}
+	}
+	var sum [sha256.Size]byte
+	hasher.Sum(sum[:0])
+	return sum
+}
+
 func loadPkgCache(lpkg *listedPackage, pkg *types.Package, files []*ast.File, info *types.Info, ssaPkg *ssa.Package) (pkgCache, error) {
 	fsCache, err := openCache()
 	if err != nil {
 		return pkgCache{}, err
 	}
-	filename, _, err := fsCache.GetFile(lpkg.GarbleActionID)
+	filename, _, err := fsCache.GetFile(pkgCacheID(lpkg))
 	// Already in the cache; load it directly.
 	if err == nil {
 		data, err := os.ReadFile(filename)
@@ -185,7 +208,7 @@ func computePkgCache(fsCache *cache.Cache, lpkg *listedPackage, pkg *types.Packa
 			continue // nothing to load
 		}
 		if err := func() error { // function literal for the deferred close
-			if filename, _, err := fsCache.GetFile(lpkg.GarbleActionID); err == nil {
+			if filename, _, err := fsCache.GetFile(pkgCacheID(lpkg)); err == nil {
 				// Cache hit; merge its entries into computed. We decode into a
 				// fresh value rather than onto computed, as msgp replaces maps
 				// rather than merging into them.
@@ -244,7 +267,7 @@ func computePkgCache(fsCache *cache.Cache, lpkg *listedPackage, pkg *types.Packa
 	if err != nil {
 		return pkgCache{}, err
 	}
-	if err := fsCache.PutBytes(lpkg.GarbleActionID, data); err != nil {
+	if err := fsCache.PutBytes(pkgCacheID(lpkg), data); err != nil {
 		return pkgCache{}, err
 	}
 	return computed, nil
